@@ -113,7 +113,10 @@ Record file := mk_file {
   (* the entries of .debug_frame / .eh_frame in order: kind (0 CIE, 1 FDE, 2 ZERO terminator), index of the
      entry's CIE in the same list (FDEs), the decoded table (rows and register order: opaque) *)
   f_cfi_ents : list (Z * Z * Z);
-  f_ehcfi_ents : list (Z * Z * Z)
+  f_ehcfi_ents : list (Z * Z * Z);
+  (* the type units of .debug_types in section order: offset, header, position after the header *)
+  f_types_size : Z;
+  f_tus : list (Z * tu_raw * Z)
 }.
 
 Definition unit_at (F : file) (u : Z) : option udesc := find (fun ud => ud_off ud =? u) (f_units F).
@@ -184,6 +187,25 @@ Definition wf_lines (F : file) : bool :=
   znodup (map (fun kv => ld_start (snd kv)) (f_lines F)) &&
   forallb (fun kv => forallb (fun p => negb (Nat.eqb (fst p) S_LINE)) (lr_eff (ld_raw (snd kv)))) (f_lines F).
 
+(* the type units tile .debug_types *)
+Definition tu_off (x : Z * tu_raw * Z) : Z := fst (fst x).
+Definition tu_hdr (x : Z * tu_raw * Z) : tu_raw := snd (fst x).
+Fixpoint tus_chain (pos : Z) (l : list (Z * tu_raw * Z)) (size : Z) : bool :=
+  match l with
+  | [] => pos =? size
+  | x :: r => (tu_off x =? pos) && (0 <? tu_size (tu_hdr x)) && tus_chain (pos + tu_size (tu_hdr x)) r size
+  end.
+Definition tu_at (F : file) (pos : Z) : option (Z * tu_raw * Z) := find (fun x => tu_off x =? pos) (f_tus F).
+
+(* DWARFInfo._type_units_by_sig once complete: the units of .debug_types, then the type units of .debug_info,
+   a later unit with the same signature replacing an earlier one *)
+Definition tumap_list (F : file) : list (Z * (Z * Z * Z)) :=
+  map (fun x => (tu_sig (tu_hdr x), (0, tu_off x, tu_pid (tu_hdr x)))) (f_tus F) ++
+  flat_map (fun ud => match uh_tsig (ud_hdr ud) with
+                      | Some sig => [(sig, (1, ud_off ud, uh_pid (ud_hdr ud)))]
+                      | None => [] end) (f_units F).
+Definition tumap_spec (F : file) : dict Z (Z * Z * Z) := dict_of_list Z.eqb (tumap_list F).
+
 Definition cfi_ents (F : file) (eh : bool) : list (Z * Z * Z) := if eh then f_ehcfi_ents F else f_cfi_ents F.
 Definition ent_kind (e : Z * Z * Z) : Z := fst (fst e).
 Definition ent_cie (e : Z * Z * Z) : Z := snd (fst e).
@@ -199,6 +221,7 @@ Definition wf_file (F : file) : bool :=
   forallb (wf_unit F) (f_units F) &&
   wf_lines F &&
   wf_cfi (f_cfi_ents F) && wf_cfi (f_ehcfi_ents F) &&
+  tus_chain 0 (f_tus F) (f_types_size F) &&
   wf_elf F.
 
 (* the finding C10/lineprogram-file_entry-grows lives exactly here *)
@@ -213,6 +236,8 @@ Definition parsers_of (F : file) : parsers :=
     (fun u pos => match entry_at F u pos with
                   | Some e => Ok (en_raw e, pos + dr_size (en_raw e))
                   | None => Err EParse end)
+    (f_types_size F)
+    (fun pos => match tu_at F pos with Some x => Ok (tu_hdr x, snd x) | None => Err EParse end)
     (f_abbrev_size F)
     (fun pos => match zassoc pos (f_abbrevs F) with Some v => Ok v | None => Err EParse end)
     (fun _ pos => match zassoc pos (f_lines F) with Some ld => Ok (ld_raw ld, ld_start ld) | None => Err EParse end)
@@ -342,7 +367,10 @@ Definition query_spec (F : file) (o : op) : answer :=
   | CFI eh => match (if eh then f_ehcfi F else f_cfi F) with Some (v, _) => AVals [v] | None => AErr EParse end
   | CFIDecoded eh i => match nth_error (cfi_ents F eh) (Z.to_nat i) with
                        | Some e => AVals [ent_table e] | None => AErr (EPy "IndexError") end
-  | NewIterCUs _ | NewIterDIEs _ _ | NewIterChildren _ _ _ | NewIterSiblings _ _ _
+  | TUBySig sig => match dict_get Z.eqb (tumap_spec F) sig with
+                   | Some v => AVals [fst (fst v); snd (fst v); snd v]
+                   | None => AErr (EPy "KeyError") end
+  | NewIterTUs _ | NewIterCUs _ | NewIterDIEs _ _ | NewIterChildren _ _ _ | NewIterSiblings _ _ _
   | NewIterSections _ | NewIterSymbols _ | NewIterTags _ => ADone
   | Next _ => AStop     (* generators: see [spec_step] *)
   | ENumSections => AVals [f_shnum F]
@@ -379,6 +407,7 @@ Inductive apc := APStart | APDie | APKids (c : acframe) | APTerm.
 Inductive aframe :=
 | AFEmpty
 | AFCUs (offset : Z)
+| AFTUs (offset : Z)
 | AFChildren (u : Z) (c : acframe)
 | AFSiblings (u self : Z) (c : option acframe)
 | AFSubtree (u : Z) (stack : list (Z * apc))
@@ -442,6 +471,13 @@ Definition aframe_next (F : file) (f : aframe) : option (aframe * answer) :=
       if offset <? f_info_size F then
         match unit_at F offset with
         | Some ud => Some (AFCUs (offset + uh_size (ud_hdr ud)), unit_ans ud)
+        | None => None
+        end
+      else None
+  | AFTUs offset =>
+      if offset <? f_types_size F then
+        match tu_at F offset with
+        | Some x => Some (AFTUs (offset + tu_size (tu_hdr x)), AVals [0; offset; tu_pid (tu_hdr x)])
         | None => None
         end
       else None
@@ -521,6 +557,7 @@ Fixpoint upd_slot {A} (n : nat) (x : A) (l : list A) : list A :=
 (* the reference machine: iterator positions only *)
 Definition spec_step (F : file) (afs : list aframe) (o : op) : list aframe * answer :=
   match o with
+  | NewIterTUs slot => (upd_slot slot (AFTUs 0) afs, ADone)
   | NewIterCUs slot => (upd_slot slot (AFCUs 0) afs, ADone)
   | NewIterDIEs slot u =>
       match unit_at F u with
@@ -580,6 +617,7 @@ Definition valid_op (F : file) (o : op) : bool :=
   | CFIDecoded eh i =>
       match (if eh then f_ehcfi F else f_cfi F) with Some _ => true | None => false end &&
       (0 <=? i) && match nth_error (cfi_ents F eh) (Z.to_nat i) with Some e => (ent_kind e =? 0) || (ent_kind e =? 1) | None => false end
+  | TUBySig _ | NewIterTUs _ => true
   | NewIterCUs _ | NewIterSections _ | Next _ => true
   | NewIterSymbols _ | ESymbolByName _ => has_symtab F
   | NewIterTags _ | ENumTags => has_dyn F
@@ -600,10 +638,10 @@ Fixpoint nav_fuel (n : node) : nat :=
   | Node _ _ kids _ _ => (S (S (length kids)) + fold_right (fun k acc => Nat.max (nav_fuel k) acc) 0 kids)%nat
   end.
 
-(* the bound that the fuel of the machine's loops must exceed: the number of units, of dynamic tags, and
-   twice the navigation fuel of the largest unit tree (iter_DIEs spends two steps per level of its stack) *)
+(* the bound that the fuel of the machine's loops must exceed: the number of units, of dynamic tags, of type units,
+   and twice the navigation fuel of the largest unit tree (iter_DIEs spends two steps per level of its stack) *)
 Definition fuel_bound (F : file) : nat :=
-  (length (f_units F) + length (f_dyns F) +
+  (length (f_units F) + length (f_dyns F) + length (f_tus F) +
    2 * fold_right (fun ud acc => Nat.max (nav_fuel (ud_tree ud)) acc) 0 (f_units F) + 4)%nat.
 Definition fuel_ok (F : file) (fuel : nat) : bool := (fuel_bound F <? fuel)%nat.
 
@@ -620,7 +658,7 @@ Definition op_ok (F : file) (o : op) : bool := valid_op F o && outside_finding F
 
 (* a concrete file used by the non-vacuity examples and the witness of the finding: one unit (header of 11
    bytes, entries at 11, 15, 18, 20 and the closing null entries at 22, 23), one abbreviation table, one
-   line program with two DW_LNE_define_file, .debug_frame (a CIE and two FDEs), two sections, one segment, one symbol, two
+   line program with two DW_LNE_define_file, .debug_frame (a CIE and two FDEs), two type units in .debug_types, two sections, one segment, one symbol, two
    dynamic tags *)
 Definition ex_raw (size : Z) (null hc : bool) (stmt : option Z) (pid : Z) : die_raw :=
   mk_raw size null hc None [] stmt pid [].
@@ -631,21 +669,22 @@ Definition ex_tree : node :=
      Node 18 (ex_raw 2 false true None 3) [Node 20 (ex_raw 2 false false None 5) [] 0 ex_null] 22 ex_null]
     23 ex_null.
 Definition ex_file_gen (defs : Z) : file :=
-  mk_file 24 [mk_ud 0 (mk_hdr 24 0 100) 11 ex_tree] 10 [(0, (7, 10))]
+  mk_file 24 [mk_ud 0 (mk_hdr 24 0 100 None) 11 ex_tree] 10 [(0, (7, 10))]
           [(0, mk_ld (mk_lpraw 30 1 200 []) 12 (mk_lpbody 201 defs) 30)] (Some (300, 40)) None
           1000 100 2 40 500 [(mk_shdr 0 0 400 [], 140); (mk_shdr 1 0 401 [(0%nat, 9)], 180)]
           [(500, (1, 501)); (501, (2, 506)); (600, (3, 604))]
           50 20 [(mk_phdr 410 [], 70)]
           700 16 600 [(mk_sym 0 420, 716)]
           800 16 [(mk_dyn false 430 [], 816); (mk_dyn true 431 [], 832)]
-          [(0, 0, 500); (1, 0, 501); (1, 0, 502)] [].
+          [(0, 0, 500); (1, 0, 501); (1, 0, 502)] []
+          30 [(0, mk_tu 12 7001 600, 9); (12, mk_tu 18 7002 601, 21)].
 Definition ex_file : file := ex_file_gen 2.      (* the line program executes two DW_LNE_define_file *)
 Definition ex_file0 : file := ex_file_gen 0.     (* ... none *)
 
 (* operations that are queries in the narrow sense: neither create nor advance a generator *)
 Definition is_query (o : op) : bool :=
   match o with
-  | NewIterCUs _ | NewIterDIEs _ _ | NewIterChildren _ _ _ | NewIterSiblings _ _ _
+  | NewIterTUs _ | NewIterCUs _ | NewIterDIEs _ _ | NewIterChildren _ _ _ | NewIterSiblings _ _ _
   | NewIterSections _ | NewIterSymbols _ | NewIterTags _ | Next _ => false
   | _ => true
   end.
